@@ -9,6 +9,8 @@ import AidlVerif.Props.C06
 import AidlVerif.Driver.Walk
 import AidlVerif.Props.C12
 import AidlVerif.Props.C20
+import AidlVerif.Props.C19Gen
+import AidlVerif.Driver.SerdeEnc
 
 /-
   Model driver: one JSON case per input line, one JSON verdict per output line.
@@ -396,6 +398,46 @@ def opExpected (j : Json) : R Verdict := do
     | none => pure ()
   return v
 
+/-- C19: RON round trip of the implementation; emitted-field logs vs the model's `ser` -/
+def opSerde (j : Json) : R Verdict := do
+  let impl ← fld j "impl"
+  let outcome ← str (← fld impl "outcome")
+  if outcome ≠ "ok" then
+    return { corr := [("outcome", false)], detail := [("impl_outcome", Json.str outcome)] }
+  let trees ← arr (← fld impl "trees")
+  let mut corr := true
+  let mut spec := true
+  let mut wf := true
+  let mut dist : List (String × Nat) := []
+  let mut detail : List (String × Json) := []
+  for t in trees do
+    let a ← aidl (← fld t "ast")
+    let rt ← bool (← fld t "roundtrip_equal")
+    let emitted ← list (fun e => do
+      let p ← arr e
+      pure ((← str p[0]!), (← list str p[1]!))) (← fld t "emitted")
+    let v := SerdeEnc.aidl a
+    let sv := Serde.ser Gen.schema v
+    let mine := SerdeEnc.emitted sv
+    if !(Serde.V.wf Gen.schema v) then wf := false
+    if mine != emitted then
+      corr := false
+      if detail.isEmpty then
+        let firstBad := (mine.zip emitted).find? (fun (x, y) => x != y)
+        detail := [("emitted_diff", Json.mkObj [("model", toString (repr (firstBad.map (·.1)))), ("impl", toString (repr (firstBad.map (·.2))))])]
+    -- the model's own round trip (theorem `roundtrip_gen`, evaluated)
+    if Serde.de Gen.schema sv != some v then corr := false
+    if !rt then
+      spec := false
+      if detail.isEmpty then detail := [("roundtrip_error", (t.getObjVal? "error").toOption.getD .null), ("ron", (t.getObjVal? "ron").toOption.getD .null)]
+    let skipped := (mine.map fun (n, fs) => (Gen.schema.fieldsOf n).length - fs.length).foldl (· + ·) 0
+    dist := bump dist s!"skipped_fields~{min (skipped / 10 * 10) 100}"
+  let mut v : Verdict := { detail }
+  v := v.addCorr "C19" corr
+  v := v.addSpec "C19" spec
+  v := v.addAssume "C19" wf
+  return { v with nontrivial := trees.size > 0, dist }
+
 def handle (prop : String) (line : String) : Json :=
   match Json.parse line with
   | .error e => Json.mkObj [("error", s!"json: {e}")]
@@ -410,6 +452,7 @@ def handle (prop : String) (line : String) : Json :=
       | "history" => opHistory j
       | "perturb" => opPerturb j
       | "expected" => opExpected j
+      | "serde" => opSerde j
       | _ => throw s!"unknown op {op}" : R Verdict) with
     | .ok v => v.toJson case
     | .error e => Json.mkObj [("case", case), ("error", e)]
